@@ -99,7 +99,7 @@ int load_passwd_data(const char *passwd_file)
 		goto mmap_failed;
 	}
 
-	user_data = cJSON_ParseWithOpts(p, NULL, 0);
+	user_data = cJSON_ParseWithLengthOpts(p, (size_t)size, NULL, 0);
 	if (user_data == NULL) {
 		log_err("Cannot parse passwd file!\n");
 		goto parse_failed;
